@@ -174,6 +174,9 @@ template<typename T, typename EntityTag>
 std::optional<PropertyPtr<T, EntityTag>>
 ResourceManager::create_persistent_property(std::string _name, const T &_def)
 {
+    // persistent implies shared, and shared properties must have a name
+    if (_name.empty())
+        return {};
     auto prop = internal_find_property<T, EntityTag>(_name);
     if (prop)
         return {};
@@ -186,6 +189,9 @@ template<typename T, typename EntityTag>
 std::optional<PropertyPtr<T, EntityTag>>
 ResourceManager::create_shared_property(std::string _name, const T &_def)
 {
+    // shared properties must have a name (cf. set_shared)
+    if (_name.empty())
+        return {};
     auto prop = internal_find_property<T, EntityTag>(_name);
     if (prop)
         return {};
